@@ -98,6 +98,9 @@ impl<C: Suite> MTS<C> {
         let keys: Vec<[u8; 32]> = ki2.iter().map(|i| ka.be[*i]).collect();
         let key_names = ki2.iter().map(|i| ka.names[*i].clone()).collect();
         let mut msgs = vec![vec![], b"trait surface".to_vec(), data(seed, "tsurf-31", 31), data(seed, "tsurf-32", 32), data(seed, "tsurf-200", 200)];
+        // pairs that collide under weak digests (same length; equal base-31 polynomial hash; equal byte sum and xor):
+        // used one after the other in the histories
+        msgs.extend([b"weak digest Aa".to_vec(), b"weak digest BB".to_vec(), b"weak digest ab".to_vec(), b"weak digest ba".to_vec()]);
         if tier.thorough() {
             msgs.push(data(seed, "tsurf-127", 127));
             msgs.push(data(seed, "tsurf-128", 128));
@@ -292,6 +295,17 @@ impl<C: Suite> Model for MTS<C> {
                     let r = guard(|| <C as BlsSignatureMessageAugmentation>::pk_bytes(pk, hint));
                     o.expect(&format!("{}:trait-pk_bytes:{}", p, g), matches!(&r, Ok(x) if *x == rf::enc(&rpk)), "the compressed public key", "differs");
                 }
+                // concatenation boundary: the signature verifies for (msg, dst); it must not verify for the pair with the
+                // first three bytes of the tag moved to the end of the message (msg || dst is the same byte string)
+                {
+                    let sig = lsg::<C>(&rf::core_sign::<C::R>(&rsk, msg, rdst));
+                    let a = guard(|| <C as BlsSignatureCore>::core_verify(pk, sig, msg, dst));
+                    let mut shifted = msg.clone();
+                    shifted.extend_from_slice(&dst[..3]);
+                    let b = guard(|| <C as BlsSignatureCore>::core_verify(pk, sig, &shifted, &dst[3..]));
+                    o.expect(&format!("{}:trait-core_verify:{}:{}", p, g, sn), matches!(a, Ok(Ok(()))), "accept", verdict(&a));
+                    o.expect(&format!("{}:trait-core_verify-shifted-message-tag-boundary:{}:{}", p, g, sn), matches!(b, Ok(Err(_))), "reject", verdict(&b));
+                }
                 // a zero key is refused by every signing entry
                 let z = Sc::<C>::ZERO;
                 let r = guard(|| <C as BlsSignatureCore>::core_sign(&z, msg, dst));
@@ -343,6 +357,10 @@ impl<C: Suite> Model for MTS<C> {
                 let r = guard(|| <C as BlsSignatureCore>::core_aggregate_verify(pairs.iter().map(|(a, b)| (*a, b.as_slice())), sig, dst));
                 o.calls(1);
                 let acc = matches!(r, Ok(Ok(())));
+                for (shape, it) in iterator_shapes(&pairs) {
+                    let r2 = guard(|| <C as BlsSignatureCore>::core_aggregate_verify(it, sig, dst));
+                    o.expect(&format!("{}:trait-core_aggregate_verify-iterator-shape:{}:{}", p, g, shape), matches!(r2, Ok(Ok(()))) == acc && r2.is_ok(), verdict(&r), verdict(&r2));
+                }
                 o.expect(
                     &format!("{}:trait-core_aggregate_verify:{}:{}:n{}:tamper{}", p, g, sn, n, c.v),
                     acc == expect_ok && r.is_ok(),
@@ -676,6 +694,129 @@ fn drawn(seed: &[u8; 32]) -> [u8; 32] {
     use rand_core::SeedableRng;
     rand_chacha::ChaCha20Rng::from_seed(*seed).gen::<[u8; 32]>()
 }
+// ---- histories across features and groups -------------------------------------------------------------------
+//
+// Every trait-level family above is a deterministic function of its inputs (entropy and clock are owned by the seams).
+// A history runs one case of ANY family / group / scheme first and then a case of this property's family on the same
+// thread; the second case must still match the reference. State that one call leaves behind for a differently
+// parameterised call (caches and scratch buffers in thread locals or statics, keyed incompletely) shows up here.
+
+pub struct MHistX {
+    prop: &'static str,
+    g1: MTS<Bls12381G1Impl>,
+    g2: MTS<Bls12381G2Impl>,
+    /// (group, case)
+    ops: Vec<(u8, Case)>,
+    /// indices of the operations that belong to this property
+    own: Vec<usize>,
+    /// (first, second): the same own operation over two messages that collide under weak digests
+    pairs: Vec<(usize, usize)>,
+}
+
+const ALL_FAMS: [Fam; 8] = [Fam::Sign, Fam::CoreAggregate, Fam::CombinePk, Fam::PartialSign, Fam::Pok, Fam::SignCrypt, Fam::SignCryptShares, Fam::TimeCrypt];
+
+impl MHistX {
+    pub fn new(prop: &'static str, tier: Tier, seed: u64) -> Self {
+        let g1 = MTS::<Bls12381G1Impl>::new(prop, Tier::Quick, seed);
+        let g2 = MTS::<Bls12381G2Impl>::new(prop, Tier::Quick, seed);
+        let own_fams = fams(prop);
+        let mut ops = vec![];
+        let mut own = vec![];
+        for g in 0..2u8 {
+            for f in ALL_FAMS {
+                for s in SCHEMES {
+                    // one key, the 13 byte message (thorough: also the 200 byte one), first variant
+                    for m in if tier.thorough() { vec![1u8, 4] } else { vec![1u8] } {
+                        if own_fams.contains(&f) {
+                            own.push(ops.len());
+                        }
+                        ops.push((g, Case { fam: f, k: 3.min(g1.keys.len() as u8 - 1), m, s, v: 0 }));
+                    }
+                }
+            }
+        }
+        // colliding message pairs (indices 5/6 and 7/8 of the message list) for this property's own operations
+        let mut pairs = vec![];
+        for g in 0..2u8 {
+            for f in ALL_FAMS {
+                if !own_fams.contains(&f) {
+                    continue;
+                }
+                for s in SCHEMES {
+                    for (a, b) in [(5u8, 6u8), (7, 8)] {
+                        let k = 3.min(g1.keys.len() as u8 - 1);
+                        ops.push((g, Case { fam: f, k, m: a, s, v: 0 }));
+                        ops.push((g, Case { fam: f, k, m: b, s, v: 0 }));
+                        pairs.push((ops.len() - 2, ops.len() - 1));
+                    }
+                }
+            }
+        }
+        MHistX { prop, g1, g2, ops, own, pairs }
+    }
+    fn run(&self, op: usize, o: &mut Obs) {
+        let (g, c) = self.ops[op];
+        if g == 0 {
+            self.g1.check(&Some(c), o)
+        } else {
+            self.g2.check(&Some(c), o)
+        }
+    }
+}
+
+impl Model for MHistX {
+    type State = Vec<usize>;
+    type Action = usize;
+    fn name(&self) -> String {
+        format!("{}-trait-surface-histories", self.prop.to_lowercase())
+    }
+    fn init(&self) -> Vec<Vec<usize>> {
+        vec![vec![]]
+    }
+    fn actions(&self, st: &Vec<usize>) -> Vec<usize> {
+        let nbase = self.ops.len() - 2 * self.pairs.len();
+        match st.len() {
+            0 => (0..nbase).chain(self.pairs.iter().map(|p| p.0)).collect(),
+            1 if st[0] >= nbase => self.pairs.iter().filter(|p| p.0 == st[0]).map(|p| p.1).collect(),
+            1 => self.own.clone(),
+            _ => vec![],
+        }
+    }
+    fn step(&self, st: &Vec<usize>, a: &usize) -> Option<Vec<usize>> {
+        let mut n = st.clone();
+        n.push(*a);
+        Some(n)
+    }
+    fn describe(&self, st: &Vec<usize>) -> String {
+        let d = |i: &usize| {
+            let (g, c) = self.ops[*i];
+            format!("{:?}/{}/{}/msg#{}", c.fam, GROUPS[g as usize], c.s.name(), c.m)
+        };
+        format!("history [{}]: the last operation compared with the reference as if it ran alone", st.iter().map(d).collect::<Vec<_>>().join(" then "))
+    }
+    fn required_outcomes(&self) -> Vec<String> {
+        vec!["history:last-operation-as-alone".into()]
+    }
+    fn check(&self, st: &Vec<usize>, o: &mut Obs) {
+        if st.len() < 2 {
+            return;
+        }
+        o.nontrivial = true;
+        let mut scratch = Obs::new();
+        self.run(st[0], &mut scratch);
+        let mut last = Obs::new();
+        self.run(st[1], &mut last);
+        o.calls(scratch.evals + last.evals);
+        let (_, first) = self.ops[st[0]];
+        let (g0, _) = self.ops[st[0]];
+        o.outcome(if last.violations.is_empty() { "history:last-operation-as-alone" } else { "history:last-operation-differs" });
+        for v in last.violations {
+            let rel = if first.m >= 5 { "-over-a-message-colliding-under-weak-digests" } else { "" };
+            o.expect(&format!("{}:after-{:?}-{}{}", v.key, first.fam, GROUPS[g0 as usize], rel), false, &v.expected, &v.observed);
+        }
+    }
+}
+
 fn rsc_of_share<C: Suite>(s: &<C as Pairing>::SecretKeyShare) -> Option<rf::RScalar> {
     s.as_field_element::<Sc<C>>().ok().map(|x| rsc::<C>(&x))
 }
@@ -684,5 +825,9 @@ fn rpk_of_share<C: Suite>(s: &<C as Pairing>::SecretKeyShare) -> Option<<C::R as
 }
 
 pub fn models(prop: &'static str, tier: Tier, seed: u64) -> Vec<Box<dyn DynModel>> {
-    vec![bounded(MTS::<Bls12381G1Impl>::new(prop, tier, seed), 1), bounded(MTS::<Bls12381G2Impl>::new(prop, tier, seed), 1)]
+    let mut v = vec![bounded(MTS::<Bls12381G1Impl>::new(prop, tier, seed), 1), bounded(MTS::<Bls12381G2Impl>::new(prop, tier, seed), 1)];
+    if fams(prop).iter().any(|f| ALL_FAMS.contains(f)) {
+        v.push(bounded(MHistX::new(prop, tier, seed), 2));
+    }
+    v
 }
